@@ -5,8 +5,12 @@
 // router stacks whose REAL link set-up (VerifSetupLink: handshake, link keys,
 // label, registration, workers) goes through an adversary proxy applying the
 // plan to real bytes; thorough corrupts every byte of each of the six
-// messages. Stage T: the observed outcomes are judged by TLC
-// (Handshake_Trace).
+// messages; a "splice" plan puts the message together from this connection's
+// message and one its receiver verified before (earlier connection, earlier
+// message). Further stages script a participant against a real victim
+// (insider, relay, overlap, impersonation - also with signatures recorded in
+// an earlier genuine handshake). Stage T: the observed outcomes are judged by
+// TLC (Handshake_Trace).
 package main
 
 import (
@@ -86,12 +90,15 @@ type runner struct {
 	c    *vf.Ctx
 	rng  *rand.Rand
 	aged bool // replayold: the earlier connection is two hours old
+	// splice: what the message is put together from (see spliceMsg)
+	spBody, spSig string
 }
 
 type observed struct {
 	RegA, RegB         bool
 	PeersOK, TrafficOK bool
 	Note               string
+	Skip               bool // the plan could not be applied (reported as broken): nothing to judge
 }
 
 // run executes one link set-up with the plan; byteOff >= 0 selects the corrupted byte (thorough sweep).
@@ -105,9 +112,9 @@ func (r *runner) run(cf cfgT, pl planT, byteOff, bit int) observed {
 	defer db.Stop()
 	node := map[string]*world.Node{"A": a, "B": b}
 	var old map[string][][]byte
-	if pl.Op == "replayold" {
+	if pl.Op == "replayold" || pl.Op == "splice" {
 		var restamp func(p *linkworld.Proxy, m linkworld.Msg) [][]byte
-		if r.aged {
+		if r.aged && pl.Op == "replayold" {
 			// the earlier connection happened two hours ago: what its sender signed carries the time of then
 			restamp = func(p *linkworld.Proxy, m linkworld.Msg) [][]byte {
 				if m.Dir != pl.Dir {
@@ -119,14 +126,14 @@ func (r *runner) run(cf cfgT, pl planT, byteOff, bit int) observed {
 		first := linkworld.Connect(a, b, restamp, 300*time.Millisecond)
 		old = first.Proxy.Delivered
 		if first.LinkA == nil || first.LinkB == nil {
-			r.c.Broken("replayold: the earlier clean connection failed: %v %v", first.ErrA, first.ErrB)
-			return observed{}
+			r.c.Broken("%s: the earlier clean connection failed: %v %v", pl.Op, first.ErrA, first.ErrB)
+			return observed{Skip: pl.Op == "splice"}
 		}
 		a.Peer.CloseLink(b.ID.IP)
 		b.Peer.CloseLink(a.ID.IP)
 		first.Proxy.Close()
 		time.Sleep(5 * time.Millisecond)
-		if r.aged {
+		if r.aged && pl.Op == "replayold" {
 			// ... and the two routers have met since
 			mid := linkworld.Connect(a, b, nil, 300*time.Millisecond)
 			if mid.LinkA == nil || mid.LinkB == nil {
@@ -155,6 +162,7 @@ func (r *runner) run(cf cfgT, pl planT, byteOff, bit int) observed {
 	}
 	note := ""
 	swapped := false
+	spliced := false
 	hook := func(p *linkworld.Proxy, m linkworld.Msg) [][]byte {
 		if pl.Op == "none" || m.Dir != pl.Dir {
 			return nil
@@ -204,6 +212,21 @@ func (r *runner) run(cf cfgT, pl planT, byteOff, bit int) observed {
 			if len(old[m.Dir]) >= m.Idx {
 				return [][]byte{old[m.Dir][m.Idx-1]}
 			}
+		case "splice":
+			var now [][]byte // what this sender has sent on this connection before (the receiver has verified it)
+			for j := 1; j < m.Idx; j++ {
+				if d := p.Sent(m.Dir, j, time.Millisecond); d != nil {
+					now = append(now, d)
+				}
+			}
+			d, what := spliceMsg(r.rng, m.Data, m.Idx, old[m.Dir], now, r.spBody, r.spSig)
+			if d == nil {
+				note = what
+				return nil
+			}
+			spliced = true
+			note = what
+			return [][]byte{d}
 		case "reflect":
 			other := "B"
 			if m.Dir == "B" {
@@ -219,6 +242,17 @@ func (r *runner) run(cf cfgT, pl planT, byteOff, bit int) observed {
 	res := linkworld.Connect(a, b, hook, 250*time.Millisecond)
 	r.c.Eval(1)
 	time.Sleep(2 * time.Millisecond)
+	if pl.Op == "splice" && !spliced {
+		// the message was not reached or could not be put together: no fault was applied, nothing to judge
+		r.c.Broken("splice %s%d (%s/%s): not applied: %s (set-up: %v / %v)", pl.Dir, pl.Idx, r.spBody, r.spSig, note, res.ErrA, res.ErrB)
+		for _, n := range node {
+			for _, l := range n.Peer.GetLinks() {
+				l.Close(nil)
+			}
+		}
+		res.Proxy.Close()
+		return observed{Skip: true}
+	}
 	// "registered" = the real set-up returned a link (it had been added to the registry at that moment;
 	// the other end giving up later closes it again)
 	o := observed{RegA: res.LinkA != nil, RegB: res.LinkB != nil, PeersOK: true, TrafficOK: true, Note: note}
@@ -276,6 +310,93 @@ func agedCopy(data []byte, key ed25519.PrivateKey, age time.Duration) []byte {
 	copy(body[len(body)-64:], ed25519.Sign(key, body[:len(body)-64]))
 	body[1] = ttl
 	return d
+}
+
+// sigSpan: where the 64 signature bytes of a framed handshake message (2-byte length prefix + frame) are.
+func sigSpan(data []byte) (lo, hi int, ok bool) {
+	if len(data) < 2+49 {
+		return 0, 0, false
+	}
+	f := data[2:]
+	mi := 49 + int(f[48])
+	if len(f) < mi+2 {
+		return 0, 0, false
+	}
+	ml := int(f[mi])<<8 | int(f[mi+1])
+	lo = 2 + mi + 2 + ml
+	hi = lo + 64
+	return lo, hi, hi <= len(data)
+}
+
+// the bodies and signature sources a spliced message is put together from
+var (
+	spliceBodies = []string{"current", "current-restamped", "old-restamped"}
+	spliceSigs   = []string{"old-same", "old-other", "now-earlier", "current"}
+)
+
+// spliceMsg composes replay and alteration: a message put together from the message in flight (cur, the idx-th of its
+// direction) and material its receiver has seen and verified before - the messages `old` of the same direction of an
+// earlier completed connection, and the messages `now` the sender sent on this connection before.
+//
+//	body: "current"           today's message
+//	      "current-restamped" today's message with a later time stamp
+//	      "old-restamped"     the same message of the earlier connection with today's time stamp
+//	sig:  "old-same"    the signature of the same message of the earlier connection
+//	      "old-other"   the signature of another message of the earlier connection
+//	      "now-earlier" the signature of an earlier message of this connection (idx > 1; otherwise as old-other)
+//	      "current"     today's signature (not with body "current": that would be no fault at all)
+//
+// Whatever the mix, the sender never produced these bytes. nil = could not be composed (what says why).
+func spliceMsg(rng *rand.Rand, cur []byte, idx int, old, now [][]byte, body, sig string) (out []byte, what string) {
+	if len(old) < 3 || idx < 1 || idx > 3 {
+		return nil, fmt.Sprintf("only %d messages of the earlier connection", len(old))
+	}
+	if body == "current" && sig == "current" {
+		return nil, "today's message under today's signature is no fault"
+	}
+	switch body {
+	case "current":
+		out = append([]byte(nil), cur...)
+	case "current-restamped":
+		out = append([]byte(nil), cur...)
+		if len(out) < 2+16 {
+			return nil, "message too short"
+		}
+		stamp := binary.BigEndian.Uint64(out[2+8 : 2+16])
+		binary.BigEndian.PutUint64(out[2+8:2+16], stamp+uint64(1+rng.Intn(50)))
+	case "old-restamped":
+		out = append([]byte(nil), old[idx-1]...)
+		if len(out) < 2+16 || len(cur) < 2+16 {
+			return nil, "message too short"
+		}
+		copy(out[2+8:2+16], cur[2+8:2+16])
+	default:
+		return nil, "unknown body " + body
+	}
+	src, from := cur, "today's own"
+	switch {
+	case sig == "old-same":
+		src, from = old[idx-1], fmt.Sprintf("message %d of the earlier connection", idx)
+	case sig == "now-earlier" && len(now) > 0:
+		j := rng.Intn(len(now))
+		src, from = now[j], fmt.Sprintf("message %d of this connection", j+1)
+	case sig == "old-other" || sig == "now-earlier":
+		j := (idx - 1 + 1 + rng.Intn(2)) % 3
+		src, from = old[j], fmt.Sprintf("message %d of the earlier connection", j+1)
+	case sig == "current":
+	default:
+		return nil, "unknown signature source " + sig
+	}
+	slo, shi, ok1 := sigSpan(src)
+	olo, ohi, ok2 := sigSpan(out)
+	if !ok1 || !ok2 {
+		return nil, "a message without room for a signature"
+	}
+	copy(out[olo:ohi], src[slo:shi])
+	if bytes.Equal(out, cur) {
+		return nil, "the composed message equals today's message"
+	}
+	return out, fmt.Sprintf("message %d = %s bytes under the signature of %s", idx, body, from)
 }
 
 func main() { vf.Main("C04", "model_checking", run) }
@@ -351,6 +472,15 @@ func insider(rng *rand.Rand, challenge, proof string, mHasSecret bool) (register
 // insiderConn: one connection of the scripted participant M to the victim, presenting `claim` as its identity (its
 // own public address, or somebody else's) and signing everything with M's own key.
 func insiderConn(rng *rand.Rand, v, mn *world.Node, claim m.PublicAddress, challenge, proof string) (registered bool, detail string) {
+	return insiderConnSigs(rng, v, mn, claim, challenge, proof, nil)
+}
+
+// insiderConnSigs: as insiderConn; with sigs (three signatures M recorded when the router it passes for spoke to the
+// victim earlier) M signs nothing: it puts the recorded signatures under its request, response and ack.
+func insiderConnSigs(rng *rand.Rand, v, mn *world.Node, claim m.PublicAddress, challenge, proof string, sigs [][]byte) (registered bool, detail string) {
+	if sigs != nil && len(sigs) != 3 {
+		return false, "set-up: three recorded signatures are needed"
+	}
 	ca, cb := net.Pipe()
 	defer ca.Close()
 	url, _ := m.ParsePeeringURL("tcp://127.0.0.1:47369")
@@ -411,6 +541,9 @@ func insiderConn(rng *rand.Rand, v, mn *world.Node, claim m.PublicAddress, chall
 		return fail("sign request", err)
 	}
 	f1.SetTTL(1)
+	if sigs != nil {
+		copy(f1.AuthData(), sigs[0])
+	}
 	if err := writeMsg(ca, f1); err != nil {
 		return fail("write request", err)
 	}
@@ -455,6 +588,9 @@ func insiderConn(rng *rand.Rand, v, mn *world.Node, claim m.PublicAddress, chall
 	if err := f2.Seal(sess); err != nil {
 		return fail("seal response", err)
 	}
+	if sigs != nil {
+		copy(f2.AuthData(), sigs[1])
+	}
 	if err := writeMsg(ca, f2); err != nil {
 		return fail("write response", err)
 	}
@@ -477,6 +613,9 @@ func insiderConn(rng *rand.Rand, v, mn *world.Node, claim m.PublicAddress, chall
 	}
 	if err := f3.Seal(sess); err != nil {
 		return fail("seal ack", err)
+	}
+	if sigs != nil {
+		copy(f3.AuthData(), sigs[2])
 	}
 	if err := writeMsg(ca, f3); err != nil {
 		return fail("write ack", err)
@@ -840,8 +979,129 @@ func overlap(rng *rand.Rand, cross bool) (regD, regL, trafficOK, clear bool, det
 	return
 }
 
+// recordedHistory: one victim V, one honest router P, one router M that reads along.  P and V meet genuinely once or
+// twice (either end dials), M records what P sent; the links are closed.  Then up to three connections of M to V in
+// which M presents P's identity: with recorded signatures under its own messages ("recorded"; taken by position from
+// the last meeting, or picked at random from everything recorded), or - mixed in by the PRNG - signed with its own key
+// ("genuine" / "swapped" as in the histories above).  broken != "" = the history could not be set up.
+func recordedHistory(rng *rand.Rand, sec string, rep int) (evs []any, conns, meetings int, broken string) {
+	world.InstallLogCapture()
+	w := world.NewWorld()
+	v, mn, pn := mkNode(w, "V", 0, "u", sec), mkNode(w, "M", 1, "u", sec), mkNode(w, "P", 2, "u", sec)
+	dv, dp := linkworld.StartDrain(v), linkworld.StartDrain(pn)
+	defer dv.Stop()
+	defer dp.Stop()
+	var pool, last [][]byte
+	meetings = 1 + rng.Intn(2)
+	for i := 0; i < meetings; i++ {
+		var res *linkworld.Result
+		pdir := "A"
+		if rng.Intn(2) == 0 {
+			res = linkworld.Connect(pn, v, nil, 300*time.Millisecond)
+		} else {
+			res, pdir = linkworld.Connect(v, pn, nil, 300*time.Millisecond), "B"
+		}
+		if res.LinkA == nil || res.LinkB == nil {
+			res.Proxy.Close()
+			return nil, 0, 0, fmt.Sprintf("genuine meeting %d failed: %v / %v", i+1, res.ErrA, res.ErrB)
+		}
+		last = nil
+		for j := 1; j <= 3; j++ {
+			d := res.Proxy.Sent(pdir, j, 50*time.Millisecond)
+			lo, hi, ok := sigSpan(d)
+			if d == nil || !ok {
+				res.Proxy.Close()
+				return nil, 0, 0, fmt.Sprintf("genuine meeting %d: handshake message %d of P not recorded", i+1, j)
+			}
+			last = append(last, append([]byte(nil), d[lo:hi]...))
+		}
+		pool = append(pool, last...)
+		v.Peer.CloseLink(pn.ID.IP)
+		pn.Peer.CloseLink(v.ID.IP)
+		res.Proxy.Close()
+		time.Sleep(5 * time.Millisecond)
+	}
+	deadline := time.Now().Add(time.Second)
+	for v.Peer.GetLink(pn.ID.IP) != nil && time.Now().Before(deadline) {
+		time.Sleep(time.Millisecond)
+	}
+	if v.Peer.GetLink(pn.ID.IP) != nil {
+		return nil, 0, 0, "the genuine link to P did not go away"
+	}
+	proof := "none"
+	if sec != "" {
+		proof = "own"
+	}
+	for k := 0; k < 3; k++ {
+		cl, mode := "recorded", "position"
+		if rep > 0 {
+			switch x := rng.Intn(10); {
+			case x < 3:
+				mode = "shuffled"
+			case x < 5:
+				mode = "one-for-all"
+			case x == 8:
+				cl, mode = "genuine", "own-key"
+			case x == 9:
+				cl, mode = "swapped", "own-key"
+			}
+		}
+		claim := pn.ID.PublicAddress
+		var sigs [][]byte
+		switch mode {
+		case "position":
+			sigs = last
+		case "shuffled":
+			for j := 0; j < 3; j++ {
+				sigs = append(sigs, pool[rng.Intn(len(pool))])
+			}
+		case "one-for-all":
+			one := pool[rng.Intn(len(pool))]
+			sigs = [][]byte{one, one, one}
+		}
+		if cl == "swapped" {
+			claim.PublicKey = mn.ID.PublicKey
+		}
+		time.Sleep(time.Duration(3+rng.Intn(4)) * time.Millisecond)
+		challenge := []string{"cM", "cV"}[rng.Intn(2)]
+		if rep == 0 {
+			challenge = "cM"
+		}
+		reg, detail := insiderConnSigs(rng, v, mn, claim, challenge, proof, sigs)
+		conns++
+		if !reg && v.Peer.GetLink(pn.ID.IP) != nil {
+			reg = true
+		}
+		bound := "none"
+		var key []byte
+		if sess := v.St.GetSession(pn.ID.IP); sess != nil && sess.Address() != nil {
+			key = sess.Address().PublicKey
+		} else if rec, err := v.Store.GetRouter(pn.ID.IP); err == nil && rec != nil && rec.Address != nil {
+			key = rec.Address.PublicKey
+		}
+		switch {
+		case key == nil:
+		case bytes.Equal(key, pn.ID.PublicKey):
+			bound = "P"
+		case bytes.Equal(key, mn.ID.PublicKey):
+			bound = "M"
+		default:
+			bound = "other"
+		}
+		evs = append(evs, map[string]any{"ev": "impersonate", "claim": cl, "sigs": mode, "challenge": challenge, "meetings": meetings, "conn": k + 1, "known": true, "secret": sec != "",
+			"history": fmt.Sprintf("recorded/%d", rep), "registered": reg, "bound": bound, "detail": detail})
+		if reg {
+			for _, l := range v.Peer.GetLinks() {
+				l.Close(nil)
+			}
+			break
+		}
+	}
+	return evs, conns, meetings, ""
+}
+
 func run(c *vf.Ctx) {
-	c.Rule("M: TLC on Handshake: 16 universe/secret configurations without wire fault and, for the admissible configurations (no secret / same secret), one fault (drop, corrupt, truncate, duplicate, swap, replay-from-earlier-connection with and without lost receiver state, reflect) at each of the 3 message positions of both directions, every interleaving of the two directions. R: each (configuration, plan) run as a REAL link set-up of two real routers through a proxy that applies the plan to the real bytes (quick: one random authenticated byte per corrupt plan; thorough: every authenticated byte of each of the six messages, 2 bits). T: outcomes judged by TLC. distinct = distinct (configuration, plan, byte)")
+	c.Rule("M: TLC on Handshake: 16 universe/secret configurations without wire fault and, for the admissible configurations (no secret / same secret), one fault (drop, corrupt, truncate, duplicate, swap, replay-from-earlier-connection with and without lost receiver state, reflect) at each of the 3 message positions of both directions, every interleaving of the two directions. R: each (configuration, plan) run as a REAL link set-up of two real routers through a proxy that applies the plan to the real bytes (quick: one random authenticated byte per corrupt plan; thorough: every authenticated byte of each of the six messages, 2 bits). Op splice = replay composed with alteration: the message at the plan's position is put together from this connection's message and material its receiver has verified before (bytes of now / of an earlier completed connection with a changed stamp, under the signature of the same or another message of the earlier connection or of an earlier message of this one). HandshakeImpersonate claim recorded: after 1-2 genuine handshakes of P and the victim a third router presents P's identity and puts signatures recorded then under its own messages. T: outcomes judged by TLC. distinct = distinct (configuration, plan, byte)")
 	c.Assume("signature / hash security symbolic in the model, real in the replay", "a set-up in which a message never arrives is ended by closing the connection after 250 ms of silence")
 
 	mc, err := c.TLC("Handshake", "Handshake_MC.cfg", vf.TLCOpts{Workers: 1, Timeout: 10 * time.Minute})
@@ -884,6 +1144,9 @@ func run(c *vf.Ctx) {
 	}
 	for i, k := range keys {
 		o := plans[k]
+		if o.Plan.Op == "splice" {
+			continue // run below, once per way of putting the message together
+		}
 		ob := r.run(o.Cfg, o.Plan, -1, 0)
 		record(o, ob)
 		if !allowed[k][fmt.Sprintf("%v/%v", ob.RegA, ob.RegB)] {
@@ -913,8 +1176,52 @@ func run(c *vf.Ctx) {
 		aged++
 	}
 	r.aged = false
-	c.Stage("R", map[string]any{"setups": len(keys) + aged, "replays_of_a_two_hour_old_connection": aged, "impl_level_drift": drift})
-	c.Logf("R: %d set-ups, drift %d", len(keys), drift)
+	// replay composed with alteration: the message at the plan's position is put together from today's message and
+	// material the receiver has verified before (an earlier completed connection of the pair, this connection's
+	// earlier messages); quick: every body with one signature source in rotation, thorough: every mix, 3 times
+	spliced, splicePlans := 0, 0
+	rot := r.rng.Intn(4)
+	for _, k := range keys {
+		o := plans[k]
+		if o.Plan.Op != "splice" {
+			continue
+		}
+		splicePlans++
+		for _, body := range spliceBodies {
+			var sigs []string
+			for _, sg := range spliceSigs {
+				if sg == "current" && body != "current-restamped" {
+					continue // today's signature on today's (or byte-identical) bytes would be no fault
+				}
+				sigs = append(sigs, sg)
+			}
+			chosen := []string{sigs[rot%len(sigs)]}
+			rot++
+			if c.Thorough() {
+				chosen = append(append(append([]string(nil), sigs...), sigs...), sigs...)
+			}
+			for rep, sg := range chosen {
+				r.spBody, r.spSig = body, sg
+				ob := r.run(o.Cfg, o.Plan, -1, 0)
+				if ob.Skip {
+					continue
+				}
+				record(o, ob)
+				if !allowed[k][fmt.Sprintf("%v/%v", ob.RegA, ob.RegB)] {
+					drift++
+					c.Logf("drift: %s (%s) real outcome %v/%v, model %v", k, ob.Note, ob.RegA, ob.RegB, allowed[k])
+				}
+				c.Distinct(fmt.Sprintf("%s|%s|%s|%d", k, body, sg, rep))
+				spliced++
+			}
+		}
+	}
+	r.spBody, r.spSig = "", ""
+	if splicePlans == 0 {
+		c.Broken("R: the model produced no splice plan")
+	}
+	c.Stage("R", map[string]any{"setups": len(keys) - splicePlans + aged + spliced, "replays_of_a_two_hour_old_connection": aged, "spliced_messages": spliced, "impl_level_drift": drift})
+	c.Logf("R: %d set-ups (%d with a spliced message), drift %d", len(keys)-splicePlans+aged+spliced, spliced, drift)
 
 	if c.Thorough() {
 		// every authenticated byte of each of the six messages
@@ -1133,6 +1440,30 @@ func run(c *vf.Ctx) {
 		c.Stage("R-impersonate/"+hc.cfg, map[string]any{"connections": n})
 	}
 
+	// ---- the same participant with signatures it RECORDED (HandshakeImpersonate, claim "recorded"): P and the victim
+	// completed genuine handshakes which M read along; the links are gone, the victim still holds its session for P.
+	// M connects, presents P's genuine identity, writes its own messages (own challenge, the victim's fresh challenge
+	// echoed, own key share, newer stamps) and puts signatures P made then under them.
+	{
+		n, meetingsTotal := 0, 0
+		for _, sec := range []string{"", "s"} {
+			for rep := 0; rep < c.Pick(3, 30); rep++ {
+				evs, conns, meetings, broken := recordedHistory(r.rng, sec, rep)
+				if broken != "" {
+					c.Broken("recorded signatures (secret %q, history %d): %s", sec, rep, broken)
+					continue
+				}
+				c.Eval(conns)
+				n += conns
+				meetingsTotal += meetings
+				c.Distinct(fmt.Sprintf("recorded|%s|%d", sec, rep))
+				events = append(events, evs...)
+			}
+		}
+		c.Stage("R-impersonate/recorded-signatures", map[string]any{"connections": n, "genuine_meetings_before": meetingsTotal})
+		c.Logf("recorded signatures: %d connections after %d genuine meetings", n, meetingsTotal)
+	}
+
 	for len(events) > 0 {
 		rejectAt, inv, tres, err := c.TraceCheck("Handshake_Trace", "Handshake_Trace.cfg", events, vf.TLCOpts{Timeout: 20 * time.Minute})
 		if err != nil {
@@ -1157,6 +1488,12 @@ func run(c *vf.Ctx) {
 			events = events[rejectAt:]
 			continue
 		}
+		if ev["ev"] == "impersonate" && ev["claim"] == "recorded" {
+			key = vf.Key("impersonate", ev["claim"], ev["sigs"], ev["secret"], ev["registered"], ev["bound"])
+			c.Violation(key, fmt.Sprintf("a router that holds no key of P's presented P's identity and put signatures under its own messages that P had made for OTHER messages, in %v earlier genuine handshake(s) with the victim (signatures chosen: %v; connection %v of history %v, universe secret %v): link registered under P's address over this connection: %v, key bound to that address at the victim afterwards: %v (%v)", ev["meetings"], ev["sigs"], ev["conn"], ev["history"], ev["secret"], ev["registered"], ev["bound"], ev["detail"]), ev, nil)
+			events = events[rejectAt:]
+			continue
+		}
 		if ev["ev"] == "impersonate" {
 			key = vf.Key("impersonate", ev["claim"], ev["conn"], ev["known"], ev["registered"], ev["bound"])
 			c.Violation(key, fmt.Sprintf("a router that signs with its own key claimed the address of a router that never took part (connection %v of history %v, claim %v): link registered under that address: %v, key bound to that address at the victim afterwards: %v (%v)", ev["conn"], ev["history"], ev["claim"], ev["registered"], ev["bound"], ev["detail"]), ev, nil)
@@ -1171,6 +1508,8 @@ func run(c *vf.Ctx) {
 			continue
 		}
 		switch {
+		case ev["op"] == "splice" && (ev["regA"] == true || ev["regB"] == true):
+			what = "a router registered the link although the message it received was not what its peer sent: it was put together from this connection's message and one the router had verified before (its sender never signed these bytes)"
 		case ev["op"] != "none" && (ev["regA"] == true || ev["regB"] == true):
 			what = "a router registered the link although the message it received was altered / replayed / reflected / missing"
 		case ev["op"] == "none" && ev["regA"] != ev["regB"]:
@@ -1185,7 +1524,14 @@ func run(c *vf.Ctx) {
 		c.Violation(key, fmt.Sprintf("%s: %v", what, ev), ev, nil)
 		events = events[rejectAt:]
 		if c.NViolations() > 6 {
-			break
+			// enough link set-ups reported; the histories of the other kinds are still judged
+			var rest []any
+			for _, e := range events {
+				if e.(map[string]any)["ev"] != "setup" {
+					rest = append(rest, e)
+				}
+			}
+			events = rest
 		}
 	}
 	c.Logf("T done")
